@@ -5,7 +5,8 @@ Line driver for C12.
 * `X f <code>` — the machine of `Model/NeoExec.lean` on `<code>` with feature flags `f` (1 = AllowReaderEOF + DisableHasKey), at most
   20000 opcodes: `halt e=[…] a=[…]` (both stacks, top first, containers numbered in order of first visit, `@k` = container k again),
   `fault`, `unmodelled`, `steplimit`, `toodeep` (a value nested deeper than 3000), or — never, by `C12_step_total_no_oob` — `MODEL-PANIC`.
-* `V … | N … | E …` — outside the model: the line carries only the crash predicate, the model's answer is `nocrash`.
+* `V … | N … | E …` — outside the model: the line carries only the crash predicate (evaluated by the harness on what the real code
+  did); the model accepts every observation (`nocrash ## CRASH ## PANIC ## TIMEOUT`).
 -/
 namespace OntVerif.Driver.C12
 open OntVerif.Util OntVerif.Model.NeoVal OntVerif.Model.NeoExec
@@ -78,15 +79,19 @@ def runX (f : String) (code : Bytes) : String :=
   | .dangling => "MODEL-DANGLING"
   | .fuel => "MODEL-FUEL"
 
+/-- a line outside the model: the model has no opinion on the output (the harness prints `nocrash`, or what it observed when the process
+died); the verdict on such a line is the crash predicate evaluated by the harness (`Fail` / `Class`), not the comparison -/
+def outside : String := "nocrash ## CRASH ## PANIC ## TIMEOUT"
+
 def handle (line : String) : String :=
   match fields line with
   | ["X", f, c] =>
     match unhex c with
     | some code => runX f code
     | none => "badline"
-  | "V" :: _ => "nocrash"
-  | "N" :: _ => "nocrash"
-  | "E" :: _ => "nocrash"
+  | "V" :: _ => outside
+  | "N" :: _ => outside
+  | "E" :: _ => outside
   | _ => "badline"
 
 end OntVerif.Driver.C12
